@@ -118,6 +118,17 @@ def check_assembly(run, pkg, attrs):
     # ---- prefactor table
     pre = [e for e in stores(it) if e.data["target"][2][0] == "tuple" and len(e.loops) == 2 and e.data["value"][0] == "bin"
            and any(x == ("sym", "masses") for x in walk(ex(e.data["value"])))]
+    # a type-keyed dict must be read by type id: consuming it in iteration order makes the table depend on insertion order
+    for e in it.events:
+        if e.kind in ("assign", "store"):
+            v = ex(e.data["value"])
+            for x in walk(v):
+                if x[0] == "call" and x[1] in (".values", ".items", "builtins.list", "builtins.sorted") and x[2] and x[2][0] == ("sym", "masses") \
+                        and x[1] != "builtins.sorted":
+                    run.ob("R-IDX", fq, "masses-order", False, "masses are looked up by 1-based type id (the dict's insertion order is irrelevant)",
+                           f"{key_of(e)[:110]}", witness="masses = {3: 4.0, 1: 1.0, 2: 2.5}: position k of the values is not the mass of type k+1; "
+                           "mass-weighted translations are no longer annihilated", loc=loc_of(it, e))
+                    break
     if len(pre) != 1:
         raise AnalysisError(f"{fq}: mass prefactor table store not found ({len(pre)})")
     pe = pre[0]
